@@ -179,6 +179,12 @@ func (a *AddrManager) safelyCheckPassword(privPass []byte) error {
 	if err != nil {
 		return err
 	}
+	if a.unlocked {
+		// while unlocked the derived master key is kept for later use (checkPassword only
+		// compares the salted hash then); zeroing it here would break every later
+		// operation that decrypts with it, e.g. GetMnemonic after ExportWallet
+		return nil
+	}
 	a.masterKeyPriv.Zero()
 	return nil
 }
